@@ -94,6 +94,10 @@ def consoleLinesAux (cur : List Byte) : List Byte → List (List Byte)
       (if cur = [] then consoleLinesAux [] r else edit cur.reverse :: consoleLinesAux [] r)
     else consoleLinesAux (b :: cur) r
 
+/-- a console stream without its unterminated last piece -/
+def dropPartial (stream : List Byte) : List Byte :=
+  (stream.reverse.dropWhile (fun b => !(b = bLF ∨ b = bCR ∨ b = bNUL))).reverse
+
 def consoleLines (stream : List Byte) : List (List Byte) := consoleLinesAux [] stream
 
 /-! ### the side condition of the framing clause
@@ -143,13 +147,26 @@ def judgeStep (p : Port) (j : J) (e : Ev) : J :=
   | .ask n =>
     let j := if n + 1 ≤ MAXT then j else j.fail s!"ask {n} exceeds the input buffer"
     match p with
-    | .telnet => if keepsPending (j.lastE - j.lastS) then j else { j with exact := false }
+    | .telnet =>
+      if keepsPending (j.lastE - j.lastS) then j
+      else
+        -- get_user_data discards the whole pending text; complete commands typed ahead go with it (known finding)
+        let lost := (expected p j.rx).length - j.delivered.length
+        let j := if j.exact ∧ lost > 0 then
+            j.fail s!"typeahead-discarded: {lost} complete command line(s) were pending when get_user_data discarded {j.lastE - j.lastS} bytes of unread text"
+          else j
+        { j with exact := false }
     | _ => j
   | .rx b => { j with rx := j.rx ++ b }
   | .cl b =>
-    -- console blob: discarded as a whole when it does not fit behind text_end; the stream is what was accepted
-    if b.length = 0 ∨ j.lastE + b.length + 1 > MAXT then j
-    else { j with rx := j.rx ++ b }
+    -- console blob: if it does not fit behind text_end it is dropped as a whole - unless only an unfinished
+    -- (over-long) line is pending: then that line is discarded first
+    if b.length = 0 then j
+    else if j.lastE + b.length + 1 ≤ MAXT then { j with rx := j.rx ++ b }
+    else if (expected p j.rx).length > j.delivered.length then j
+    else
+      let kept := dropPartial j.rx
+      if b.length + 1 ≤ MAXT then { j with rx := kept ++ b } else { j with rx := kept }
   | .input l => { j with delivered := j.delivered ++ [l] }
   | .cmd l =>
     let j := { j with delivered := j.delivered ++ [l] }
